@@ -157,6 +157,19 @@ pub fn check_lookups(v: &Value, r: &RV) -> Result<(), String> {
                 if o.contains_key(k) != !pos.is_empty() || o.index_of(k) != pos.first().copied() || o.indexes_of(k).collect::<Vec<_>>() != pos {
                     return Err(format!("contains_key/index_of/indexes_of({k:?}) differ from a linear scan"));
                 }
+                // the lookup iterators through the whole Iterator protocol (nth, step_by, size_hint...)
+                if pos.len() <= 6 {
+                    let ents = o.entries();
+                    let want_vals: Vec<&Value> = pos.iter().map(|&i| &ents[i].value).collect();
+                    let want_ents: Vec<&json_syntax::object::Entry> = pos.iter().map(|&i| &ents[i]).collect();
+                    let want_vi: Vec<(usize, &Value)> = pos.iter().map(|&i| (i, &ents[i].value)).collect();
+                    let want_ei: Vec<(usize, &json_syntax::object::Entry)> = pos.iter().map(|&i| (i, &ents[i])).collect();
+                    bridge::iterator_protocol(&format!("get({k:?})"), || o.get(k), &want_vals)?;
+                    bridge::iterator_protocol(&format!("get_entries({k:?})"), || o.get_entries(k), &want_ents)?;
+                    bridge::iterator_protocol(&format!("indexes_of({k:?})"), || o.indexes_of(k), &pos)?;
+                    bridge::iterator_protocol(&format!("get_with_index({k:?})"), || o.get_with_index(k), &want_vi)?;
+                    bridge::iterator_protocol(&format!("get_entries_with_index({k:?})"), || o.get_entries_with_index(k), &want_ei)?;
+                }
             }
             for (en, (_, y)) in o.iter().zip(e) {
                 check_lookups(&en.value, y)?;
@@ -620,10 +633,47 @@ pub fn run_tree(rep: &mut Report, plan: &TreePlan, prune: (bool, bool), vis: &Te
 }
 
 /// The standard tree plans for a tier; `scale` stretches every time share.
-pub fn plans(tier: Tier, which: &[&str], scale: f64) -> Vec<TreePlan> {
+/// Quick-tier depths are fixed per property and tree (the depths a 16-core machine completes
+/// in 1-4 s each), so that a quick run explores the same nodes on every machine and its
+/// evidence is reproducible; the time share only matters in the thorough tier, where the depth
+/// is iterated upward.
+fn quick_depth(mode: Mode, tree: &str) -> Option<usize> {
+    let d = match (mode, tree) {
+        (Mode::C01 | Mode::C07 | Mode::C03, "T-struct") => 7,
+        (Mode::C01 | Mode::C07 | Mode::C03, "T-mixed") => 6,
+        (Mode::C01 | Mode::C07 | Mode::C03, "T-num") => 6,
+        (Mode::C01 | Mode::C07, "T-str") => 5,
+        (Mode::C03, "T-str") => 4,
+        (Mode::C01 | Mode::C07 | Mode::C03, "T-tok") => 6,
+        (Mode::C02, "T-struct") => 8,
+        (Mode::C02, "T-mixed") => 7,
+        (Mode::C02, "T-num") => 9,
+        (Mode::C02, "T-str") => 5,
+        (Mode::C02, "T-tok") => 9,
+        (Mode::C05, "T-struct") => 8,
+        (Mode::C05, "T-mixed") => 7,
+        (Mode::C05, "T-str") => 5,
+        (Mode::C05, "T-tok") => 8,
+        (Mode::C12, "T-struct") => 7,
+        (Mode::C12, "T-mixed") => 6,
+        (Mode::C12, "T-num") => 7,
+        (Mode::C12, "T-str") => 5,
+        (Mode::C12, "T-tok") => 7,
+        (_, "T-lit") => 8,
+        (_, "T-sur") => 6,
+        _ => return None,
+    };
+    Some(d)
+}
+
+pub fn plans(tier: Tier, which: &[&str], scale: f64, mode: Mode) -> Vec<TreePlan> {
     let q = tier == Tier::Quick;
     let mut v = Vec::new();
     let mut add = |spec: TreeSpec, min: usize, max: usize, wide: usize, dev: usize, share: f64| {
+        let (min, max) = match (q, quick_depth(mode, spec.name)) {
+            (true, Some(d)) => (d, d),
+            _ => (min, max),
+        };
         if which.contains(&spec.name) {
             v.push(TreePlan {
                 spec,
